@@ -141,3 +141,113 @@ def _erf_post(st, interp, C, res):
 
 U_EPITHERMAL = Unit("ActivationEnvironment.epithermal_reduction_factor", ACT + ".ActivationEnvironment.epithermal_reduction_factor",
                     _erf_inputs, _erf_post)
+
+
+# ------------------------------------------------------------------------------ Sample._accumulate
+
+def _acc_inputs(st, interp):
+    use_state(st)
+    p_old, p_new = VObj("ActRec", {"id": "seen"}), VObj("ActRec", {"id": "new"})
+    old = [st.fresh("old%d" % i, z3.RealSort()) for i in range(2)]
+    a1 = [st.fresh("add_seen%d" % i, z3.RealSort()) for i in range(2)]
+    a2 = [st.fresh("add_new%d" % i, z3.RealSort()) for i in range(2)]
+    self = VObj((ACT, "Sample"), {"activity": VDict([[p_old, VList(list(old))]]), "rest_times": VTuple([0, 1])})
+    arg = VDict([[p_old, VList(list(a1))], [p_new, VList(list(a2))]])
+    return [self, arg], {}, dict(self=self, p_old=p_old, p_new=p_new, old=old, a1=a1, a2=a2, arg=arg)
+
+
+def _acc_post(st, interp, C, res):
+    if res.outcome == "raise":
+        st.oblige("never-raises", False, kind="raises", info={"exc": res.exc})
+        return
+    act = C["self"].attrs["activity"]
+    ok = isinstance(act, VDict) and len(act.entries) == 2
+    st.oblige("post.one entry per product", z3.BoolVal(ok))
+    if not ok:
+        return
+    d = {id(k): v for k, v in act.entries}
+    seen, new = d.get(id(C["p_old"])), d.get(id(C["p_new"]))
+    ok = isinstance(seen, VList) and isinstance(new, VList) and len(seen.items) == 2 and len(new.items) == 2
+    st.oblige("post.one activity per rest time", z3.BoolVal(ok))
+    if ok:
+        for i in range(2):
+            st.oblige("post.a product already present ADDS the new contribution (rest time %d)" % i,
+                      R(seen.items[i]) == C["old"][i] + C["a1"][i])
+            st.oblige("post.a new product starts from zero (rest time %d)" % i, R(new.items[i]) == C["a2"][i])
+    st.oblige("frame.argument unchanged", z3.BoolVal(len(C["arg"].entries) == 2), kind="frame")
+
+
+U_ACCUMULATE = Unit("Sample._accumulate", ACT + ".Sample._accumulate", _acc_inputs, _acc_post,
+                    replay={"module": "c14", "task": "replay"})
+
+
+# ------------------------------------------------------------------------------ Sample.calculate_activation
+
+ACTIVITY_OF = z3.Function("activity_of", T.Atom, z3.RealSort(), z3.IntSort(), z3.RealSort())   # (isotope, mass, rest index)
+
+
+def _ca_inputs(st, interp):
+    """a formula with two atoms: a natural element with two isotopes, and an explicitly named isotope
+    of that same element - both contribute to the same product"""
+    from . import core as KC
+    use_state(st)
+    el = ATOMS.new(st, "element")
+    iso1, iso2 = KC.ISOTOPE_OF(el.expr, z3.IntVal(1)), KC.ISOTOPE_OF(el.expr, z3.IntVal(2))
+    st.assume(z3.And(T.KIND(el.expr) == 0, T.KIND(iso1) == 1, T.KIND(iso2) == 1, iso1 != iso2,
+                     T.BASE(iso1) == el.expr, T.BASE(iso2) == el.expr))
+    st.ghost["atom_getitem"] = lambda interp_, st_, v, idx, node: ATOMS.sym(st_, KC.ISOTOPE_OF(v.expr, to_z3num(idx)))
+    st.ghost["atom_attr"] = lambda interp_, st_, v, name, node: VList([1, 2]) if name == "isotopes" else NotImplemented
+    f_el, f_iso = st.fresh("fraction_element", z3.RealSort()), st.fresh("fraction_isotope", z3.RealSort())
+    st.assume(z3.And(f_el > 0, f_iso > 0))
+    mass = st.fresh("mass", z3.RealSort())
+    st.assume(mass > 0)
+    order = st.ghost.get("order", 0)
+    ents = [[el, f_el], [ATOMS.sym(st, iso1), f_iso]]
+    formula = VObj("FormulaStub", {"mass_fraction": VDict(ents)})
+    self = VObj((ACT, "Sample"), {"formula": formula, "mass": mass, "activity": VDict([])})
+    ab1, ab2 = st.fresh("abundance1", z3.RealSort()), st.fresh("abundance2", z3.RealSort())
+    st.assume(z3.And(ab1 > 0, ab2 > 0))
+    C = dict(self=self, el=el.expr, iso1=iso1, iso2=iso2, f_el=f_el, f_iso=f_iso, mass=mass, ab1=ab1, ab2=ab2)
+    from pyvc.values import VBuiltin
+
+    def abundance(interp_, st_, args, kw):
+        a = args[0].expr
+        return z3.If(a == iso1, ab1, ab2)
+    env = VObj("Env", {})
+    return [self, env], {"exposure": st.fresh("exposure", z3.RealSort()), "rest_times": VTuple([0, 1]),
+                         "abundance": VBuiltin("abundance", abundance)}, C
+
+
+PRODUCT = VObj("ActRec", {"id": "product"})
+
+
+def c_activity(interp, st, args, kw):
+    """activity(isotope, mass, env, exposure, rest_times) -> {product: [A(T_i)]} (units activity[...]); here every
+    isotope yields the same single product so that contributions must add"""
+    iso, m = args[0].expr, R(interp.resolve(st, args[1]))
+    return VDict([[PRODUCT, VList([ACTIVITY_OF(iso, m, z3.IntVal(i)) for i in range(2)])]])
+
+
+def _ca_post(st, interp, C, res):
+    if res.outcome == "raise":
+        st.oblige("never-raises", False, kind="raises", info={"exc": res.exc})
+        return
+    act = C["self"].attrs["activity"]
+    ok = isinstance(act, VDict) and len(act.entries) == 1 and act.entries[0][0] is PRODUCT
+    st.oblige("post.one accumulated entry for the common product", z3.BoolVal(ok))
+    if not ok:
+        return
+    vals = act.entries[0][1]
+    m = C["mass"]
+    for i in range(2):
+        want = (ACTIVITY_OF(C["iso1"], m * C["f_el"] * C["ab1"] * z3.RealVal("0.01"), z3.IntVal(i))
+                + ACTIVITY_OF(C["iso2"], m * C["f_el"] * C["ab2"] * z3.RealVal("0.01"), z3.IntVal(i))
+                + ACTIVITY_OF(C["iso1"], m * C["f_iso"], z3.IntVal(i)))
+        st.oblige("post.natural element contributes the abundance-weighted sum of its isotopes and an explicitly named "
+                  "isotope adds to it (rest time %d)" % i, R(vals.items[i]) == want)
+
+
+U_CALC_ACTIVATION = Unit("Sample.calculate_activation", ACT + ".Sample.calculate_activation", _ca_inputs, _ca_post,
+                         contracts={ACT + ".activity": c_activity},
+                         inline={ACT + ".Sample._accumulate", "periodictable.core.isisotope", "periodictable.core.ision"},
+                         replay={"module": "c14", "task": "replay"})
